@@ -273,52 +273,58 @@ def puLoop (base0 : Bool) (base : Nat) : List UInt8 → Nat → Bool → Except 
           if n1 < n || n1 > W - 1 then .error .range          -- n+d overflows
           else puLoop base0 base rest n1 us
 
+/-- base selection of `strconv.ParseUint`: for base 0 look for a `0b 0o 0x` prefix (only when at least three
+    bytes long), a leading `0` alone means octal; returns the base and the digits that remain -/
+def basePrefix (base0 : Bool) (s : List UInt8) : Nat × List UInt8 :=
+  if base0 then
+    match s with
+    | c0 :: rest0 =>
+      if c0 == 48 then
+        match rest0 with
+        | c1 :: rest1 =>
+          if s.length ≥ 3 && lower c1 == 98 then (2, rest1)
+          else if s.length ≥ 3 && lower c1 == 111 then (8, rest1)
+          else if s.length ≥ 3 && lower c1 == 120 then (16, rest1)
+          else (8, rest0)
+        | [] => (8, rest0)
+      else (10, s)
+    | [] => (10, s)
+  else (10, s)
+
 /-- `strconv.ParseUint(s, 0, 64)` when `base0`, else `strconv.ParseUint(s, 10, 64)`.
     (On a range error Go also returns the value 2^64-1; `strconvParseInt10` accounts for it.) -/
 def parseUint (base0 : Bool) (s : List UInt8) : Except NumErr Nat :=
   if s.isEmpty then .error .syntax else
-  let (base, body) : Nat × List UInt8 :=
-    if base0 then
-      match s with
-      | c0 :: rest0 =>
-        if c0 == 48 then
-          match rest0 with
-          | c1 :: rest1 =>
-            if s.length ≥ 3 && lower c1 == 98 then (2, rest1)
-            else if s.length ≥ 3 && lower c1 == 111 then (8, rest1)
-            else if s.length ≥ 3 && lower c1 == 120 then (16, rest1)
-            else (8, rest0)
-          | [] => (8, rest0)
-        else (10, s)
-      | [] => (10, s)
-    else (10, s)
-  match puLoop base0 base body 0 false with
+  match puLoop base0 (basePrefix base0 s).1 (basePrefix base0 s).2 0 false with
   | .error e => .error e
   | .ok (n, us) => if us && !underscoreOK s then .error .syntax else .ok n
 
 /-- `strconv.ParseUint(s, 0, 64)`: base prefixes `0x 0o 0b`, leading `0` = octal, `_` separators -/
 def parseUintBase0 (s : List UInt8) : Except NumErr Nat := parseUint true s
 
+/-- `strconv.ParseInt`: pick off a leading sign -/
+def splitSign (s : List UInt8) : Bool × List UInt8 :=
+  match s with
+  | c :: rest => if c == 43 then (false, rest) else if c == 45 then (true, rest) else (false, s)
+  | [] => (false, s)
+
 /-- `strconv.ParseInt(s, 10, 64)` -/
 def strconvParseInt10 (s : List UInt8) : Except NumErr Int :=
-  match s with
-  | [] => .error .syntax
-  | c :: rest =>
-    let (neg, body) : Bool × List UInt8 :=
-      if c == 43 then (false, rest) else if c == 45 then (true, rest) else (false, s)
-    let un? : Except NumErr Nat :=
-      match parseUint false body with
-      | .ok un => .ok un
-      | .error .range => .ok (W - 1)      -- ParseUint returned maxVal with ErrRange; ParseInt goes on
-      | .error e => .error e
-    match un? with
+  if s.isEmpty then .error .syntax else
+  let neg := (splitSign s).1
+  let un? : Except NumErr Nat :=
+    match parseUint false (splitSign s).2 with
+    | .ok un => .ok un
+    | .error .range => .ok (W - 1)      -- ParseUint returned maxVal with ErrRange; ParseInt goes on
     | .error e => .error e
-    | .ok un =>
-      if !neg && un ≥ H then .error .range
-      else if neg && un > H then .error .range
-      else
-        let n := toI64 un
-        .ok (if neg then negI64 n else n)
+  match un? with
+  | .error e => .error e
+  | .ok un =>
+    if !neg && un ≥ H then .error .range
+    else if neg && un > H then .error .range
+    else
+      let n := toI64 un
+      .ok (if neg then negI64 n else n)
 
 /-! ### yang.ParseInt, yang.ParseDecimal -/
 
@@ -328,10 +334,8 @@ def parseInt (s : List UInt8) : Except NumErr Number :=
   if s = [] then .error .empty
   else if s = [43] || s = [45] then .error .signOnly
   else
-    let (neg, ns) : Bool × List UInt8 :=
-      match s with
-      | c :: rest => if c == 43 then (false, rest) else if c == 45 then (true, rest) else (false, s)
-      | [] => (false, s)
+    let neg := (splitSign s).1
+    let ns := (splitSign s).2
     match parseUintBase0 ns with
     | .error e => .error e
     | .ok v => .ok { value := v, fd := 0, neg := neg }
@@ -341,15 +345,18 @@ def indexDot : List UInt8 → Option Nat
   | [] => none
   | c :: rest => if c == 46 then some 0 else (indexDot rest).map (· + 1)
 
+/-- the head of `decimalValueFromString`: number of bytes after the first `.` and the string without it -/
+def dropDot (numStr : List UInt8) : Nat × List UInt8 :=
+  match indexDot numStr with
+  | some dx => (numStr.length - 1 - dx, numStr.take dx ++ numStr.drop (dx + 1))
+  | none => (0, numStr)
+
 /-- Go: `decimalValueFromString` (repaired: the count of written fraction digits is an `int`) -/
 def decimalValueFromString (numStr : List UInt8) (fd : Nat) : Except NumErr Number :=
   if fd > 18 || fd < 1 then .error .badFd else
-  let (fracDig, s) : Nat × List UInt8 :=
-    match indexDot numStr with
-    | some dx => (numStr.length - 1 - dx, numStr.take dx ++ numStr.drop (dx + 1))
-    | none => (0, numStr)
+  let fracDig := (dropDot numStr).1
   if fracDig > fd then .error .precision else
-  let s := s ++ space18.take (fd - fracDig)
+  let s := (dropDot numStr).2 ++ space18.take (fd - fracDig)
   match strconvParseInt10 s with
   | .error e => .error e
   | .ok v =>
